@@ -357,6 +357,7 @@ func (f *frame) callHavocRes(x ssa.CallInstruction, callee *ssa.Function, st Sta
 	if keep == nil || len(ms.m) > 0 {
 		nh = c.heapHavoc(st.heap, "call_"+sanitize(name), keep)
 		nh = c.restoreGlobals(st.heap, nh, ms)
+		nh = f.restoreLocals(st.heap, nh)
 	}
 	na := c.fresh("alloc", "Int")
 	c.assume(reach, ge(na, st.alloc.term()))
